@@ -22,6 +22,7 @@ RULE = (
     "table whose first index is > 0 with unsorted pixels, or a negative bound combined with a column subset, or "
     "integer chromosome encoding. Distinct by sha1 of the canonical case."
     " Also: explicit step 1; negative bounds beyond the start of the table; an integer bin column whose name contains 'chrom'; annotate() with replace left to its default."
+    ' Part dump-join: `cooler dump --join / --annotate` with row and column regions in either order, --fill-lower and square storage, judged by the text-dump oracle of C16.'
 )
 ASSUMPTIONS = [
     "a partial bin table passed to annotate is a contiguous slice of the stored table indexed by bin id and covering the referenced ids",
@@ -381,7 +382,21 @@ def check_manycontig(case, ctx: Ctx):
     ctx.record(case, enum is None, ["manycontig", "int-encoded" if enum is None else "enum-encoded"])
 
 
-CHECKS = {"selector": check_selector, "annotate": check_annotate, "manycontig": check_manycontig}
+def _dump_join_cases():
+    from . import c16
+
+    return c16.dump_cases().filter(lambda c: c["join"] or c["annotate"])
+
+
+def check_dump(case, ctx: Ctx):
+    """`cooler dump --join / --annotate` (row and column regions in either order, --fill-lower, square storage): every
+    printed pixel carries the chromosome, start, end and extra columns of its own two bins (C16's text-dump oracle)."""
+    from . import c16
+
+    c16.check_dump(case, ctx)
+
+
+CHECKS = {"selector": check_selector, "annotate": check_annotate, "manycontig": check_manycontig, "dump": check_dump}
 
 
 def replay(ctx: Ctx, case):
@@ -393,5 +408,6 @@ def run(ctx: Ctx):
     parts = []
     parts.append(given_part(ctx, "selector", selector_cases(), check_selector, per_shard(ctx, 2400 if q else 60000)))
     parts.append(given_part(ctx, "annotate", annotate_cases(), check_annotate, per_shard(ctx, 2400 if q else 60000)))
+    parts.append(given_part(ctx, "dump-join", _dump_join_cases(), check_dump, per_shard(ctx, 400 if q else 8000), batch=25))
     parts.append(given_part(ctx, "manycontig", manycontig_cases(), check_manycontig, per_shard(ctx, 16 if q else 320), batch=4))
     run_parts(ctx, parts)
